@@ -144,8 +144,8 @@ def replay(tls, h):
     return None
 
 
-def consts(tls, maxops, maxsocks=7):
-    return {"Peers": {"p1", "p2"}, "Tls": tls, "MaxSocks": maxsocks, "MaxOps": maxops}
+def consts(tls, maxops, maxsocks=7, peers=("p1", "p2"), client=True):
+    return {"Peers": set(peers), "Tls": tls, "MaxSocks": maxsocks, "MaxOps": maxops, "ClientOps": client}
 
 
 def run(ctx):
@@ -155,6 +155,10 @@ def run(ctx):
         for v in r.violated:
             ctx.violation("the model violates %s" % v, {"tlc": r.out[-4000:]})
         hs = ctx.tlc("tcp", "SocketsGen", core.cfg_text(constants=consts(tls, 4), constraints=["Dump"]), workers=1).tagged_json("BH")
+        # one peer address, every server history of 7 (quick) / 8 events: reconnects from the same address while the older
+        # connection is still held, in every handshake state, then close / reopen
+        hs += ctx.tlc("tcp", "SocketsGen", core.cfg_text(constants=consts(tls, 7 if ctx.quick else 8, 10, peers=("p1",), client=False), constraints=["Dump"]),
+                      workers=1).tagged_json("BH")
         nex = len(hs)
         nsim, dep = (150, 10) if ctx.quick else (4000, 16)
         hs += ctx.tlc("tcp", "SocketsGen", core.cfg_text(constants=consts(tls, dep, 14), constraints=["Dump"]),
